@@ -42,7 +42,8 @@ ASSUMPTIONS = [
 	"(start=0, end=-1) call is judged on whole-sequence composition, which "
 	"both documented conventions imply",
 ]
-REQUIRED = {"walks_enumerated": 50, "dinuc_returned": 50,
+REQUIRED = {"numpy_int_seed_calls": 20, "long_region_calls": 8,
+	"walks_enumerated": 50, "dinuc_returned": 50,
 	"shuffle_returned": 50}
 TIMEOUT = {"quick": 900, "thorough": 5400}
 
@@ -100,7 +101,12 @@ def case_api(cls, params, rec):
 		"float64": torch.float64}[params.get("xdtype", "int8")])
 	fn = params["fn"]
 	f = getattr(ersatz, fn)
-	kw = {"n": params["n"], "random_state": params["seed"]}
+	seed_arg = params["seed"]
+	if seed_arg is not None and params.get("seedkind") == "npint":
+		# numpy integers are integers too (e.g. seeds taken from an array)
+		seed_arg = numpy.int64(seed_arg)
+		rec.count("numpy_int_seed_calls")
+	kw = {"n": params["n"], "random_state": seed_arg}
 	if params.get("default"):
 		s, e = 0, L
 	else:
@@ -144,6 +150,15 @@ def case_api(cls, params, rec):
 			rec.violation(cls, params, {"what": "same integer seed, different "
 				"result on the second call"}, mech="C02/nondeterministic")
 			return
+		if params.get("seedkind") == "npint":
+			# and the same function of the seed's value as for a Python int
+			st3, val3 = gen.call(f, X, **dict(kw, random_state=int(
+				params["seed"])))
+			if st3 != "ok" or not torch.equal(val, val3):
+				rec.violation(cls, params, {"what": "numpy.int64 seed and "
+					"the equal Python int seed give different results"},
+					mech="C02/nondeterministic")
+				return
 		rec.count("determinism_pairs", B)
 	nt = sum(1 for b in range(B) if nontrivial_region(idx[b], s, e))
 	rec.bulk_held(cls, B, nt, sample=params)
@@ -320,6 +335,9 @@ def plan(tier, seed):
 					"seed": seed, "weight": 1 + (A ** L) * L * L / 2000})
 	for k in range(nrand):
 		units.append({"cls": "api-rand", "k": k, "seed": seed, "weight": 4})
+	# very long regions (position tables beyond 2**15 and 2**16)
+	for k in range(3 if tier == "quick" else 24):
+		units.append({"cls": "api-long", "k": k, "seed": seed, "weight": 6})
 	# compiled kernel under bounds checking
 	for k in range(4 if tier == "quick" else 32):
 		units.append({"cls": "api-rand", "k": 10000 + k, "seed": seed,
@@ -358,10 +376,28 @@ def run_unit(unit, rec):
 					k += 1
 					run_case(cls, {"fn": fn, "A": A, "seqs": "all:%d" % L,
 						"start": s, "end": e, "n": 1 + k % 3, "seed": seed,
-						"determinism": k % 4 == 0}, rec)
+						"determinism": k % 4 == 0,
+						"seedkind": "npint" if k % 8 == 0 else "int"}, rec)
 		run_case(cls, {"fn": fn, "A": A, "seqs": "all:%d" % L,
 			"default": True, "n": 2, "seed": 3}, rec)
 		rec.mark_exhaustive(cls)
+	elif unit["cls"] == "api-long":
+		r = gen.pyrng("C02long", unit["seed"], unit["k"])
+		A = r.choice([2, 4, 4])
+		al = alpha(A)
+		L = [33000, 40000, 70000, 66000, 131100][unit["k"] % 5] + r.randint(
+			0, 50)
+		seq = gen.rand_seq(r, L, al)
+		for fn in ("dinucleotide_shuffle", "shuffle"):
+			for reg in ((0, L), (1, L - 1), "default", (L - 32800, L)):
+				pr = {"fn": fn, "A": A, "seqs": [seq], "n": r.randint(1, 2),
+					"seed": r.randrange(1000), "determinism": False}
+				if reg == "default":
+					pr["default"] = True
+				else:
+					pr["start"], pr["end"] = reg
+				run_case("long-" + fn, pr, rec)
+				rec.count("long_region_calls")
 	else:
 		r = gen.pyrng("C02", unit["seed"], unit["k"])
 		if unit.get("boundscheck"):
@@ -380,6 +416,7 @@ def run_unit(unit, rec):
 			for reg in regions:
 				pr = {"fn": fn, "A": A, "seqs": seqs, "n": r.randint(1, 20),
 					"seed": r.choice([None, 0, 1, 12345, unit["seed"] + 99]),
+					"seedkind": r.choice(["int", "int", "npint"]),
 					"xdtype": r.choice(["int8", "float32", "float64"])}
 				if reg == "default":
 					pr["default"] = True
